@@ -108,6 +108,11 @@ fn check_text<T: Plain>(t: &[u8]) -> Result<&'static str, String> {
 }
 
 fn check_object_ty(ty: usize, log: u8, bh1: &[u8], bh2: &[u8], all: bool) -> Result<(), String> {
+    // a panic escaping from the library through any call below is a violation of this case, not a crash
+    guard_case(|| check_object_ty_unguarded(ty, log, bh1, bh2, all))
+}
+
+fn check_object_ty_unguarded(ty: usize, log: u8, bh1: &[u8], bh2: &[u8], all: bool) -> Result<(), String> {
     match ty {
         0 => check_object::<RawFuzzyHash>(log, bh1, bh2, all),
         1 => check_object::<LongRawFuzzyHash>(log, bh1, bh2, all),
@@ -116,6 +121,11 @@ fn check_object_ty(ty: usize, log: u8, bh1: &[u8], bh2: &[u8], all: bool) -> Res
     }
 }
 fn check_text_ty(ty: usize, t: &[u8]) -> Result<&'static str, String> {
+    // a panic escaping from the library through any call below is a violation of this case, not a crash
+    guard_case(|| check_text_ty_unguarded(ty, t))
+}
+
+fn check_text_ty_unguarded(ty: usize, t: &[u8]) -> Result<&'static str, String> {
     match ty {
         0 => check_text::<RawFuzzyHash>(t),
         1 => check_text::<LongRawFuzzyHash>(t),
